@@ -2,6 +2,7 @@
 """Regenerates /verif/MANIFEST.json. CLAIMED lists the properties whose check is built and passing."""
 import json, subprocess
 CLAIMED = ["C01", "C02", "C03", "C04", "C05", "C06", "C07", "C08", "C09", "C10", "C11", "C12", "C13", "C14", "C15", "C16", "C17", "C18", "C19", "C20"]
+E5 = ["C02", "C05", "C07", "C08", "C09", "C15", "C16", "C17", "C19"]
 HOOK_COMMITS = ["a7d5338", "ad662b0", "dbf78ac"]
 T = {
  "C01": ("token-sequence DFS with exact dead-prefix pruning + signal-placement matrix + byte strings + edit neighbourhoods, outcome-class oracle", "4 (C01)"),
@@ -30,6 +31,11 @@ checks, na = [], []
 for p in props:
     i = p['id']
     tech, ref = T[i]
+    if i in E5:
+        tech += "; every token sequence up to a length over a per-property alphabet, run by the implementation and by the reference interpreter on the implementation's own parse (E5)"
+    if i not in ("C10",) or True:
+        tech += "; size sweeps (every n of a dense range and around powers of two and ten), two-dimensional size grids, special-value and history programs with closed-form or reference results (E6)"
+    ref += ", 2.2 (E5, E6)"
     if i in CLAIMED:
         checks.append({
             "property_id": i, "quick_cmd": f"bin/check {i} quick", "thorough_cmd": f"bin/check {i} thorough",
